@@ -42,6 +42,9 @@ def enumerated(tier, seed):
     def f(name, kind, n, k):
         ftype, dtype = {"ml": (2, 0), "basic": (0, 0), "ascii": (0, 0xFF)}[kind]
         return dict(name=name, ext="BIN", kind=kind, ftype=ftype, dtype=dtype, load=0x1000, exec=0x1000, data=dict(n=n, k=k, mode=0, head="", tail=""))
+    # names as they come off a tape whose name field is NUL padded, and a disk filled with 68 one-granule files
+    yield dict(order=None, files=[f("AB\0\0\0\0\0\0", "ml", 300, 1), f("\0" * 8, "basic", 2400, 2), f("\0X", "ascii", 100, 3), f("LAST", "ml", 10, 4)])
+    yield dict(order=None, files=[f("T%d" % i, ("ml", "basic", "ascii")[i % 3], 20 + i, i) for i in range(68)])
     for order in _ORDERS[:2]:
         yield dict(order=order, files=[f("BIG1", "ml", 60000, 1), f("BIG2", "ml", 60000, 2), f("BIG3", "ml", 60000, 3), f("SML1", "basic", 100, 4), f("SML2", "ascii", 3000, 5)])
         yield dict(order=order, files=[f("A", "ascii", 65000, 1), f("B", "basic", 64000, 2), f("C", "ml", 30000, 3), f("D", "ml", 5000, 4)])
